@@ -8,6 +8,7 @@ use crate::output::{Digits, NumberParts};
 use crate::runtime::Show;
 use crate::types::{BigInt, BigRat, Numeric};
 use serde_derive::{Deserialize, Serialize};
+use std::convert::TryFrom;
 use std::fmt;
 use std::ops::{Add, Div, Mul, Neg, Sub};
 
@@ -159,9 +160,11 @@ impl Number {
                 return Err("Unit exponent is too large".to_string());
             }
             Ok(self.powi(exp))
-        } else if num == one {
-            let exp: Option<i64> = den.as_int();
-            self.root(exp.unwrap() as i32)
+        } else if let (true, Some(root)) = (
+            num == one,
+            den.as_int().and_then(|den| i32::try_from(den).ok()),
+        ) {
+            self.root(root)
         } else if !self.dimless() {
             Err("Exponentiation must result in integer dimensions".to_string())
         } else {
